@@ -262,6 +262,26 @@ def _listing(m, cl):
     return sorted((ref.qualified_name, len(storage.list_mementos(ref))) for ref in m.list_memoized_functions(cl))
 
 
+def _listing_ext(m, cl):
+    """(qualified name, is the listed reference an external stub, number of mementos reachable through it)"""
+    storage = m.Environment.get().get_cluster(cluster_name=cl).storage
+    return sorted([ref.qualified_name, bool(ref.external), len(storage.list_mementos(ref))] for ref in m.list_memoized_functions(cl))
+
+
+def _c_bare_child(root, store, cluster):
+    """A process that reads the store without having imported the program (its modules are importable)."""
+    import sys
+
+    import twosigma.memento as m
+
+    farm.set_env(store, ("vfc", "other", "vf"))
+    sys.path.insert(0, root)
+    try:
+        return _listing_ext(m, cluster) + _listing_ext(m, "other")
+    except Exception as e:
+        return "EXC:%s:%s" % (type(e).__name__, str(e)[:100])
+
+
 def _observe(a, m, cluster, list_first=False):
     obs = {}
     if list_first:
@@ -326,6 +346,10 @@ def _observe(a, m, cluster, list_first=False):
         obs["listed"] = [list(x) for x in _listing(m, cluster) + _listing(m, "other")]
     except Exception as e:
         obs["listed"] = "EXC:%s:%s" % (type(e).__name__, str(e)[:100])
+    try:
+        obs["listed_ext"] = _listing_ext(m, cluster) + _listing_ext(m, "other")
+    except Exception as e:
+        obs["listed_ext"] = "EXC:%s:%s" % (type(e).__name__, str(e)[:100])
     return obs
 
 
@@ -385,6 +409,12 @@ def part_c(args):
             progen.write_pkg(P, root)
             o = farm.fork_call(_c_child, root, store, cluster, False, lf)
             bad = judge_c(o, want, prev, o0, "recluster" in steps[:k + 1])
+            if bad is None and not P.get("b_broken"):
+                # a process that has not imported the program sees the same store: same names, same stubs, same entries
+                bare = farm.fork_call(_c_bare_child, root, store, cluster)
+                if bare != o["listed_ext"]:
+                    bad = ("listing-depends-on-imports", "a process that has not imported the program lists %s, the process that has lists %s (name, external stub, entries)"
+                           % (bare, o["listed_ext"]))
             prev = o
             if bad:
                 sig = "evolve|%s|callee:%s%s|step:%s|%s%s" % (_cl(cluster), callee_kind, VARIANT.get(argpass, ""), st, bad[0], "|listed-first" if lf else "")
@@ -423,11 +453,11 @@ def judge_c(o, want, prev, first, moved=False):
         if qn.split("::")[-1] not in cur and not ext:
             return ("vanished-not-external", "reference %s is not a current function yet not reported as external" % qn)
     # the caller's stored record has not been rewritten: it names the same functions as at the start
-    # (a callee that moved to another cluster resolves to the live function: compared without the cluster part)
-    if {q.split("::")[-1] for q, _ in o["refs"]} != {q.split("::")[-1] for q, _ in first["refs"]}:
+    # (compared with the cluster part: a callee that moved to another cluster does not rename what was stored)
+    if {q for q, _ in o["refs"]} != {q for q, _ in first["refs"]}:
         return ("reference-names-changed", "the caller's memento names %s, when stored it named %s" % (sorted({q for q, _ in o["refs"]}), sorted({q for q, _ in first["refs"]})))
     # ... and with the same arguments
-    if not moved and o.get("inv_args") != first.get("inv_args"):
+    if o.get("inv_args") != first.get("inv_args"):
         return ("reference-arguments-changed", "the invocations recorded in the caller's memento read %s, when stored they read %s" % (o.get("inv_args"), first.get("inv_args")))
     for st in o.get("stubs", []):
         if len(st) == 2:
@@ -440,8 +470,8 @@ def judge_c(o, want, prev, first, moved=False):
     # nothing was forgotten: whatever was listed before is still listed under the same name with at least as many entries
     if isinstance(o["listed"], str):
         return ("listing-raised", "listing the functions and their mementos raised %s" % o["listed"][4:])
-    # (not after a function moved to another cluster: a stored name then resolves to the live function in its new cluster)
-    if isinstance(prev["listed"], list) and not moved:
+    # (also after a function moved to another cluster)
+    if isinstance(prev["listed"], list):
         now = {q: n for q, n in o["listed"]}
         for q, n in prev["listed"]:
             if now.get(q, -1) < n:
